@@ -127,7 +127,10 @@ func c10Check(c c10Case, rec *evid.Recorder) *Fail {
 				if e > len(src) || string(src[s:e]) != t.Literal || len(t.Literal) == 0 {
 					return failf("token %d %v: number literal is not the source slice at its start (%q)\nsrc %q", i, t, src[s:min(e, len(src))], src)
 				}
-				if t.Type != token.INT && t.Type != token.FLOAT {
+				// a malformed number (`0x`, `1e+`) may also be reported as an illegal
+				// token; that valid numbers are numbers is pinned by the Frags comparison
+				// below and by C02/C07
+				if t.Type != token.INT && t.Type != token.FLOAT && t.Type != token.ILLEGAL {
 					return failf("token %d %v: digit-initial lexeme typed %d\nsrc %q", i, t, t.Type, src)
 				}
 				// (no maximality demand for malformed numbers such as `0b2`; well-formed
@@ -135,6 +138,23 @@ func c10Check(c c10Case, rec *evid.Recorder) *Fail {
 			case b == '"' || b == '\'':
 				var term bool
 				e, term = reflex.StringEnd(src, s)
+				// a quoted string that runs into a raw line break is malformed JavaScript:
+				// a lexer may carry on to the closing quote (as above) or end the -
+				// illegal - token in front of the line break; the token's End tells which
+				if t.Type == token.ILLEGAL {
+					for k := s + 1; k < e; k++ {
+						if src[k] == '\\' {
+							k++
+							continue
+						}
+						if src[k] == '\n' || src[k] == '\r' {
+							if eo := lt.Offset(t.End.Line, t.End.Column); eo == k-1 || eo == k {
+								e, term = k, false
+							}
+							break
+						}
+					}
+				}
 				// an unterminated literal may be reported as a string or as an illegal token
 				if t.Type != token.STRING && !(t.Type == token.ILLEGAL && !term) {
 					return failf("token %d %v: quote-initial lexeme typed %d\nsrc %q", i, t, t.Type, src)
